@@ -4,8 +4,9 @@
 P="$1"; ID="$2"; TIER="${3:-quick}"
 cd /verif
 # one seeded change at a time in /repo: overlapping seeds contaminate each other's verdicts
-exec 9>/verif/.lock-seed
+exec 9>>/verif/.lock-seed
 flock 9
+export VERIF_SEED_LOCK_HELD=1
 git -C /repo apply "$P" || { echo "patch does not apply"; exit 2; }
 cp evidence/$ID.json /tmp/evidence-$ID.bak 2>/dev/null
 ./check "$ID" "$TIER"; RC=$?
